@@ -629,6 +629,15 @@ impl World {
                         }
                     }
                 }
+                if self.focus == Some("C18") {
+                    // a window operation that panics is not "exactly like a bounded FIFO": panics raised inside
+                    // the Inflights code, or by a capacity change / buffer release call, belong to C18
+                    let window_call = matches!(&kind, CallKind::Knob(Knob::MaxInflight { .. }) | CallKind::Knob(Knob::FreeInflightBuffers));
+                    if msg.contains("inflights.rs") || window_call {
+                        let d = format!("node {n}: an in-flight window operation panicked in {}: {msg}", kind_name(&kind));
+                        return Err(self.violation("C18", "C18.window_is_fifo", n, d, format!("window_op_panicked:{sig}")));
+                    }
+                }
                 return Err(self.violation("C20", "C20.no_panic", n, detail, sig));
             }
         };
@@ -1377,6 +1386,7 @@ impl World {
             Action::Compact { n, back } => self.compact(*n, *back)?,
             Action::SetKnob { n, knob } => {
                 let k = *knob;
+                let universe: Vec<NodeId> = self.cfg.nodes.keys().cloned().collect();
                 self.call(*n, CallKind::Knob(k), move |raw| {
                     match k {
                         Knob::MaxInflight { peer, cap } => raw.raft.adjust_max_inflight_msgs(peer, cap),
@@ -1390,6 +1400,10 @@ impl World {
                         Knob::GroupCommit(b) => raw.raft.enable_group_commit(b),
                         Knob::AssignGroup { peer, group } => raw.raft.assign_commit_groups(&[(peer, group.max(1))]),
                         Knob::ClearGroups => raw.raft.clear_commit_group(),
+                        Knob::AssignAllGroups { seed, k } => {
+                            let map: Vec<(u64, u64)> = universe.iter().map(|id| (*id, 1 + crate::prng::mix(seed, *id) % k.max(1))).collect();
+                            raw.raft.assign_commit_groups(&map)
+                        }
                     }
                     Ok(())
                 })?;
